@@ -342,9 +342,66 @@ static RunResult run_writer(const Plan& p, bool explicit_close, long rlimit, boo
 
 static void encoder_failure(Src& s);
 
+// The output file cannot be opened: it exists and overwriting was not allowed, or its directory does not exist. The constructor has to
+// report that (this is the first operating-system failure a Writer can meet), an existing file keeps its bytes, and no thread or
+// descriptor stays behind.
+static void open_failure(Src& s) {
+    static const char* const formats[] = {"pbf", "osm", "opl", "osm.gz", "opl.bz2", "osm.bz2", "opl.gz"};
+    const std::string format = formats[s.draw(sizeof(formats) / sizeof(formats[0]))];
+    const bool exists = s.boolean();
+    const std::string path = exists ? out_path() + "-exists" : out_path() + "-no-such-dir/sub/file";
+    const std::string old_bytes = "the file that was there before\n";
+    if (exists) {
+        std::ofstream f(path, std::ios::binary | std::ios::trunc);
+        f << old_bytes;
+    }
+    const std::string what = std::string{"Writer on "} + (exists ? "an existing file without permission to overwrite" : "a path in a directory that does not exist") + ", format " + format;
+    if (vp::want_desc()) vp::describe(what);
+    (void)osmium::thread::Pool::default_instance();
+    const int threads_before = perturb::thread_count();
+    const int fds_before = perturb::fd_count();
+    bool threw = false;
+    std::string msg;
+    try {
+        osmium::io::Header header;
+        osmium::io::Writer writer{osmium::io::File{path, format}, header, osmium::io::overwrite::no, s.boolean() ? osmium::io::fsync::yes : osmium::io::fsync::no};
+        osmium::memory::Buffer b{256, osmium::memory::Buffer::auto_grow::yes};
+        Obj n;
+        n.type = model::NODE;
+        n.id = 1;
+        n.loc = model::Loc{1, 2};
+        model::add_to_buffer(b, n);
+        writer(std::move(b));
+        writer.close();
+    } catch (const std::exception& e) {
+        threw = true;
+        msg = e.what();
+    }
+    VP_CHECK(threw, "open-error-lost", "no Writer call reported that the output file could not be opened | " << what);
+    if (exists) {
+        const std::string now = slurp(path);
+        ::unlink(path.c_str());
+        VP_CHECK(now == old_bytes, "existing-file-overwritten", "overwrite::no, but the existing file was changed (now " << now.size() << " bytes) | " << what);
+    }
+    int t = perturb::thread_count();
+    for (int i = 0; i < 200 && t > threads_before; ++i) {
+        std::this_thread::sleep_for(std::chrono::milliseconds(2));
+        t = perturb::thread_count();
+    }
+    VP_CHECK(t <= threads_before, "thread-leak", "threads after the failed Writer was destroyed: " << t << ", before: " << threads_before << " | " << what);
+    const int fds = perturb::fd_count();
+    VP_CHECK(fds <= fds_before, "fd-leak", "open descriptors after the failed Writer was destroyed: " << fds << ", before: " << fds_before << " | " << what);
+    vp::count("open_failure");
+    vp::nontrivial(vp::hash_str(what));
+}
+
 static void prop(Src& s) {
     if (s.chance(1, 400)) {
         encoder_failure(s);
+        return;
+    }
+    if (s.chance(1, 40)) {
+        open_failure(s);
         return;
     }
     Plan p;
